@@ -217,6 +217,191 @@ theorem lookup_parseDoc {chk : Bool} {now : Int} {p2 : α} {m m' : EntMap α} {d
       simp [he]
 
 
+/-! ### a source that was given a `filter` -/
+
+/-- a filter that keeps everything unchanged is no filter -/
+theorem doEntityF_some (chk : Bool) (now : Int) (p2 : α) (m : EntMap α) (e : Ent α) :
+    doEntityF some chk now p2 m e = doEntity chk now p2 m e := by
+  unfold doEntityF doEntity
+  cases prepEnt p2 e <;> rfl
+
+theorem foldl_doEntityF_some (chk : Bool) (now : Int) (p2 : α) (es : List (Ent α)) (m : EntMap α) :
+    es.foldl (doEntityF some chk now p2) m = es.foldl (doEntity chk now p2) m := by
+  induction es generalizing m with
+  | nil => rfl
+  | cons e rest ih => rw [List.foldl_cons, List.foldl_cons, doEntityF_some, ih]
+
+theorem parseDocF_some (chk : Bool) (now : Int) (p2 : α) (m : EntMap α) (d : Doc α) :
+    parseDocF some chk now p2 m d = parseDoc chk now p2 m d := by
+  unfold parseDocF parseDoc
+  simp only [foldl_doEntityF_some, doEntityF_some]
+
+/-- what `do_entity_descriptor` with a filter `g` stores for an entity: the filter's answer on the
+    entity restricted to its SAML 2.0 descriptors -/
+def servedF (g : Ent α → Option (Ent α)) (p2 : α) (e : Ent α) : Option (Ent α) := (prepEnt p2 e).bind g
+
+def eligibleF (g : Ent α → Option (Ent α)) (chk : Bool) (now : Int) (p2 : α) (e : Ent α) : Bool :=
+  !(chk && expired now e.validUntil) && (servedF g p2 e).isSome
+
+theorem mem_doEntityF {g : Ent α → Option (Ent α)} {chk : Bool} {now : Int} {p2 : α} {m : EntMap α} {e : Ent α}
+    {p : α × Ent α} (h : p ∈ doEntityF g chk now p2 m e) :
+    p ∈ m ∨ (p.1 = e.id ∧ servedF g p2 e = some p.2 ∧ (chk = true → expired now e.validUntil = false)) := by
+  unfold doEntityF at h
+  split at h
+  · left; exact h
+  · next hx =>
+    split at h
+    · left; exact h
+    · split at h
+      · left; exact h
+      · next d hd =>
+        split at h
+        · left; exact h
+        · next d' hd' =>
+          rcases List.mem_append.mp h with h | h
+          · left; exact h
+          · right
+            simp only [List.mem_singleton] at h
+            subst h
+            refine ⟨rfl, by simp [servedF, hd, hd'], ?_⟩
+            intro hchk
+            simp only [hchk, Bool.true_and, Bool.not_eq_true] at hx
+            exact hx
+
+theorem mem_foldl_doEntityF {g : Ent α → Option (Ent α)} {chk : Bool} {now : Int} {p2 : α} (es : List (Ent α))
+    (m : EntMap α) {p : α × Ent α} (h : p ∈ es.foldl (doEntityF g chk now p2) m) :
+    p ∈ m ∨ ∃ e ∈ es, p.1 = e.id ∧ servedF g p2 e = some p.2 ∧ (chk = true → expired now e.validUntil = false) := by
+  induction es generalizing m with
+  | nil => left; exact h
+  | cons e rest ih =>
+    rcases ih _ h with h1 | ⟨x, hx, rest'⟩
+    · rcases mem_doEntityF h1 with h2 | h2
+      · left; exact h2
+      · right; exact ⟨e, List.mem_cons_self .., h2⟩
+    · right; exact ⟨x, List.mem_cons_of_mem _ hx, rest'⟩
+
+theorem mem_parseDocF {g : Ent α → Option (Ent α)} {chk : Bool} {now : Int} {p2 : α} {m m' : EntMap α} {d : Doc α}
+    (h : parseDocF g chk now p2 m d = .ok m') {p : α × Ent α} (hp : p ∈ m') :
+    p ∈ m ∨ ∃ e ∈ d.entities, p.1 = e.id ∧ servedF g p2 e = some p.2 ∧ (chk = true → expired now e.validUntil = false) := by
+  unfold parseDocF at h
+  split at h
+  · split at h
+    · cases h
+    · cases h; exact mem_foldl_doEntityF _ _ hp
+  · split at h
+    · next e rest he =>
+      cases h
+      rcases mem_doEntityF hp with h1 | h1
+      · left; exact h1
+      · right; exact ⟨e, by rw [he]; exact List.mem_cons_self .., h1⟩
+    · cases h; left; exact hp
+
+theorem has_append (m n : EntMap α) (id : α) : has (m ++ n) id = (has m id || has n id) := by
+  simp [has]
+
+/-- the entityIDs listed only grow, and an entity that is current and that the filter keeps is
+    listed afterwards (under its entityID) -/
+theorem has_doEntityF (g : Ent α → Option (Ent α)) (chk : Bool) (now : Int) (p2 : α) (m : EntMap α) (e : Ent α) (id : α) :
+    has (doEntityF g chk now p2 m e) id = (has m id || (decide (e.id = id) && eligibleF g chk now p2 e)) := by
+  unfold doEntityF eligibleF servedF
+  by_cases hx : (chk && expired now e.validUntil) = true
+  · simp [hx]
+  · simp only [hx, Bool.false_eq_true, ↓reduceIte, Bool.not_false, Bool.true_and]
+    by_cases hh : has m e.id = true
+    · simp only [hh, ↓reduceIte]
+      by_cases hid : e.id = id
+      · subst hid; simp [hh]
+      · simp [hid]
+    · simp only [hh, Bool.false_eq_true, ↓reduceIte]
+      cases hp : prepEnt p2 e with
+      | none => simp
+      | some d =>
+        cases hg : g d with
+        | none => simp [hg]
+        | some d' => simp [hg, has]
+
+theorem has_foldl_doEntityF (g : Ent α → Option (Ent α)) (chk : Bool) (now : Int) (p2 : α) (es : List (Ent α))
+    (m : EntMap α) (id : α) :
+    has (es.foldl (doEntityF g chk now p2) m) id =
+      (has m id || es.any (fun e => decide (e.id = id) && eligibleF g chk now p2 e)) := by
+  induction es generalizing m with
+  | nil => simp
+  | cons e rest ih => rw [List.foldl_cons, ih, has_doEntityF, List.any_cons, Bool.or_assoc]
+
+theorem has_parseDocF {g : Ent α → Option (Ent α)} {chk : Bool} {now : Int} {p2 : α} {m m' : EntMap α} {d : Doc α}
+    (h : parseDocF g chk now p2 m d = .ok m') (id : α) :
+    has m' id = (has m id || (docEntities d).any (fun e => decide (e.id = id) && eligibleF g chk now p2 e)) := by
+  unfold parseDocF at h
+  unfold docEntities
+  split at h
+  · next hg =>
+    split at h
+    · cases h
+    · cases h; simp only [hg, ↓reduceIte]; exact has_foldl_doEntityF g chk now p2 _ m id
+  · next hg =>
+    simp only [hg, Bool.false_eq_true, ↓reduceIte]
+    split at h
+    · next e rest he =>
+      cases h
+      rw [he]
+      have := has_foldl_doEntityF g chk now p2 [e] m id
+      simpa using this
+    · next he => cases h; simp [he]
+
+theorem doEntityF_nodup (g : Ent α → Option (Ent α)) (chk : Bool) (now : Int) (p2 : α) (m : EntMap α) (e : Ent α)
+    (hn : (m.map (·.1)).Nodup) : ((doEntityF g chk now p2 m e).map (·.1)).Nodup := by
+  unfold doEntityF
+  split
+  · exact hn
+  · split
+    · exact hn
+    · next hh =>
+      split
+      · exact hn
+      · split
+        · exact hn
+        · rw [List.map_append, List.nodup_append]
+          refine ⟨hn, by simp, ?_⟩
+          intro a ha b hb hab
+          simp only [List.map_cons, List.map_nil, List.mem_singleton] at hb
+          subst hb
+          subst hab
+          exact hh ((has_iff_mem_keys m _).mpr ha)
+
+theorem parseDocF_nodup {g : Ent α → Option (Ent α)} {chk : Bool} {now : Int} {p2 : α} {m m' : EntMap α} {d : Doc α}
+    (h : parseDocF g chk now p2 m d = .ok m') (hn : (m.map (·.1)).Nodup) : (m'.map (·.1)).Nodup := by
+  have fold : ∀ (es : List (Ent α)) (m : EntMap α), (m.map (·.1)).Nodup →
+      ((es.foldl (doEntityF g chk now p2) m).map (·.1)).Nodup := by
+    intro es
+    induction es with
+    | nil => intro m hm; exact hm
+    | cons e rest ih => intro m hm; exact ih _ (doEntityF_nodup g chk now p2 m e hm)
+  unfold parseDocF at h
+  split at h
+  · split at h
+    · cases h
+    · cases h; exact fold _ m hn
+  · split at h
+    · cases h; exact doEntityF_nodup g chk now p2 m _ hn
+    · cases h; exact hn
+
+/-- the filter a source specification carries, as a function (`none` = no filter = keep as is) -/
+def specFilt (sp : SrcSpec α) : Ent α → Option (Ent α) :=
+  match sp.filt with
+  | none => some
+  | some f => applyFilt f
+
+theorem parseSrc_eq (sp : SrcSpec α) (now : Int) (p2 : α) (d : Doc α) :
+    parseSrc sp now p2 d = parseDocF (specFilt sp) sp.chk now p2 [] d := by
+  unfold parseSrc specFilt
+  cases sp.filt with
+  | none => simp only [parseDocF_some]
+  | some f => rfl
+
+theorem servedF_some (p2 : α) (e : Ent α) : servedF some p2 e = prepEnt p2 e := by
+  unfold servedF; cases prepEnt p2 e <;> rfl
+
+
 /-! ### the pinned code and the reference coincide on clean inputs -/
 
 theorem checkSig_code_eq_ideal (k : SrcKind) (cert : Bool) (s : Sig) (h : ¬ (cert = true ∧ s = .unsigned)) :
